@@ -34,6 +34,35 @@ def reboot_while_answer_pending():
     return out
 
 
+def restart_while_answer_pending():
+    """a multicast find is accepted, its answer waits for the request-response delay; meanwhile the instance is stopped and
+    started again: the answer may only go out if the instance is ready again by then (never during its initial wait)"""
+    from .. import annenv, monpass
+    out = []
+    for v in "BDE":
+        tc = anngen.TIMINGS[v]
+        for rr in range(tc["rrMin"], tc["rrMax"] + 1):
+            for init in range(tc["initMin"], tc["initMax"] + 1):
+                for gap in (0, 1):
+                    for how in ("ann", "inst"):
+                        t0 = 12
+                        sched = [{"t": 0, "j": 0, "op": "ann_start"},
+                                 {"t": t0, "j": 0, "op": "rx", "src": "a1", "mc": True, "sid": 3, "rb": True, "uc": True,
+                                  "es": [{"ty": "find", "svc": "f1x", "ttl": 3, "opts": []}]}]
+                        if how == "ann":
+                            sched += [{"t": t0 + gap, "j": 1, "op": "ann_stop"}, {"t": t0 + gap, "j": 1, "op": "ann_start"}]
+                        else:
+                            sched += [{"t": t0 + gap, "j": 1, "op": "stop_announce", "inst": "I1"}, {"t": t0 + gap, "j": 1, "op": "announce", "inst": "I1"}]
+                        # random draws in order: initial delays of I1, I2 at the first start, the answer delay, the new initial delay(s)
+                        rand = [tc["initMin"], tc["initMin"], rr, init, init]
+                        ev, _ = annenv.run_schedule(sched, tc, ["I1", "I2"], ann0=["I1", "I2"], rand=list(rand))
+                        cfg = annenv.mon_cfg(tc, ["I1", "I2"], ["I1", "I2"])
+                        cfg["dsts"] = ["mc", "a1", "a2", "a3", "a4", "a5"]
+                        out.append({"cfg": cfg, "ev": monpass.add_adv(ev), "sched": sched, "variant": v, "ann0": ["I1", "I2"], "rand": rand,
+                                    "insts": ["I1", "I2"], "diag": {"variant": v, "family": "stop and start while the answer is pending"}})
+    return out
+
+
 def check(ctx):
     m1 = Mode1(ctx, "MC_Ann")
     m1.holds("C12_A", "C12_quick.cfg")
@@ -44,7 +73,7 @@ def check(ctx):
     traces = anngen.run(ctx.seed, ctx.pick(360, 6000), ctx.pick(8, 12), INSTS, list("ABCDEF"), tag="c12")
     # finds of requesters that also hold subscriptions and reboot now and then (answers must not get lost on the way)
     traces2 = anngen.run(ctx.seed, ctx.pick(240, 3000), ctx.pick(8, 12), ["I1", "I2", "I4"], list("BDFB"), tag="c12s", with_sub=True, find_share=0.6)
-    bad, ms = judge(ctx, "Mon_C12", traces + traces2 + reboot_while_answer_pending(), "find histories", anngen.payload)
+    bad, ms = judge(ctx, "Mon_C12", traces + traces2 + reboot_while_answer_pending() + restart_while_answer_pending(), "find histories", anngen.payload)
     sim = anngen.spec_to_code_ann(ctx, "Mon_C12", "C12_S", "C12_SInputs", "B", ["I1", "I4"], ["I1", "I4"], ctx.pick(20, 300))
     acc, total = anngen.conform_by_variant(ctx, traces, ctx.pick(100, 1000))
     cov = dict(states=m1.states, transitions=m1.trans, traces_validated_against_impl=acc, monitor_traces=len(traces),
